@@ -164,6 +164,10 @@ def one(part, base, seed, dev, R):
               "subscriptions": [(s["source"], s["sub_time"], s["unsub_time"]) for s in R.env.sublog]} if (nontrivial and d and d[0] == "at") else None)
     if R.status != "ok":
         part.count("budget_runs")
+        if len(part.notes) < 3:
+            part.notes.append(f"run exceeded the action budget: {pg.descriptor(base, seed, **dev)}")
+    if R.drain == "budget":
+        part.count("runs_with_endless_activity_after_horizon")
     part.count("dispose:" + (d[0] + (":" + d[2] if d[0] == "at" else "") if d else "horizon"))
     seen = set()
     for p in problems:
